@@ -1,0 +1,46 @@
+//go:build verif
+
+package acme
+
+import (
+	"context"
+	"net/http"
+)
+
+// VerifAddNonce feeds one Replay-Nonce header value to Client.addNonce (property C50).
+func VerifAddNonce(c *Client, v string) {
+	h := http.Header{}
+	if v != "" {
+		h.Set("Replay-Nonce", v)
+	}
+	c.addNonce(h)
+}
+
+// VerifClearNonces calls Client.clearNonces.
+func VerifClearNonces(c *Client) { c.clearNonces() }
+
+// VerifDrainNonces pops nonces with Client.popNonce until the pool is empty (no network access:
+// popNonce only fetches when the pool is empty) and returns them in pop order.
+func VerifDrainNonces(c *Client) []string {
+	var out []string
+	for {
+		c.noncesMu.Lock()
+		n := len(c.nonces)
+		c.noncesMu.Unlock()
+		if n == 0 {
+			return out
+		}
+		v, err := c.popNonce(context.Background(), "")
+		if err != nil {
+			return out
+		}
+		out = append(out, v)
+	}
+}
+
+// VerifNonceCount reports the size of the nonce pool.
+func VerifNonceCount(c *Client) int {
+	c.noncesMu.Lock()
+	defer c.noncesMu.Unlock()
+	return len(c.nonces)
+}
